@@ -711,8 +711,10 @@ pasted with an identifier or a number whose joined spelling is identifier-shaped
 the identifier of the joined spelling, and the lexer reads the joined text as exactly that identifier followed by the
 line end it appends (the `[token, Endline]` shape `apply_single_macro` accepts) -- for every such pair of spellings;
 (3) for the one-character operators of the model, `pasteTokens` merges a pair exactly when the lexer reads the two
-characters as one token (all 49 pairs).  Numbers pasted with numbers are compared with the real lexer by the
-correspondence run only. -/
+characters as one token (all 49 pairs); (4) for a number pasted with a number whose joined spelling is a decimal
+number without leading `0` of at most 18 digits, `pasteTokens` yields the integer token of the joined spelling and the
+lexer reads the joined text as one integer literal with the value the digits denote (`lex_digits`, using C10's
+`digitsWith_closed`).  Outside these shapes (`1 ## x`, octal, 19+ digits, keywords) the model answers `unsupported`. -/
 theorem paste_matches_lexer :
     ((∀ s ∈ keywords, s ∈ RsslVerif.Gen.LexTables.keywords.map (·.1) ∨ s ∈ RsslVerif.Gen.LexTables.reservedWords) ∧
       (∀ s ∈ RsslVerif.Gen.LexTables.keywords.map (·.1), s ∈ keywords) ∧
@@ -725,9 +727,18 @@ theorem paste_matches_lexer :
              ⟨.simple .Endline, (RsslVerif.Model.Lexer.str (a ++ b)).length,
                (RsslVerif.Model.Lexer.str (a ++ b)).length⟩]) ∧
     (∀ a ∈ modelOperators, ∀ b ∈ modelOperators,
-      punctMerges.contains (a, b) = lexesToOneToken (RsslVerif.Model.Lexer.str (a ++ b))) :=
+      punctMerges.contains (a, b) = lexesToOneToken (RsslVerif.Model.Lexer.str (a ++ b))) ∧
+    (∀ (a b : String), a.startsWith "0" = false → (a ++ b).length ≤ 18 →
+      NumberText (RsslVerif.Model.Lexer.str (a ++ b)) →
+      pasteTokens ⟨.int a, true⟩ ⟨.int b, true⟩ = .ok ⟨.int (a ++ b), true⟩ ∧
+      RsslVerif.Model.Lexer.readToEnd (RsslVerif.Model.Lexer.str (a ++ b)) =
+        .ok [⟨.litInt (RsslVerif.Spec.Dec2Bin.ofDigits 10
+                (RsslVerif.Model.Lexer.digitRun RsslVerif.Model.Lexer.decDigit? (RsslVerif.Model.Lexer.str (a ++ b)))),
+              0, (RsslVerif.Model.Lexer.str (a ++ b)).length⟩,
+             ⟨.simple .Endline, (RsslVerif.Model.Lexer.str (a ++ b)).length,
+               (RsslVerif.Model.Lexer.str (a ++ b)).length⟩]) :=
   ⟨keywords_agree, fun a b k hk hs hkw => paste_identifiers_matches_lexer a b k hk hs hkw,
-   paste_operators_match_lexer⟩
+   paste_operators_match_lexer, fun a b h0 hl hs => paste_numbers_matches_lexer a b h0 hl hs⟩
 
 /-! ## Inclusion -/
 
